@@ -1261,6 +1261,11 @@ func (schema *Schema) visitEnumOperation(settings *schemaValidationSettings, val
 				if reflect.DeepEqual(v, value) {
 					return
 				}
+				// arrays and objects decoded with UseNumber hold json.Number
+				// where the enum member holds float64
+				if normalized, changed := jsonNumbersToFloat64(value); changed && reflect.DeepEqual(v, normalized) {
+					return
+				}
 			}
 		}
 		if settings.failfast {
@@ -1276,6 +1281,34 @@ func (schema *Schema) visitEnumOperation(settings *schemaValidationSettings, val
 		}
 	}
 	return
+}
+
+// jsonNumbersToFloat64 returns a copy of value in which every json.Number nested in
+// arrays and objects is replaced by its float64 value, and whether any was found.
+func jsonNumbersToFloat64(value any) (any, bool) {
+	switch x := value.(type) {
+	case json.Number:
+		if f, err := x.Float64(); err == nil {
+			return f, true
+		}
+	case []any:
+		out, changed := make([]any, len(x)), false
+		for i, item := range x {
+			var c bool
+			out[i], c = jsonNumbersToFloat64(item)
+			changed = changed || c
+		}
+		return out, changed
+	case map[string]any:
+		out, changed := make(map[string]any, len(x)), false
+		for k, item := range x {
+			var c bool
+			out[k], c = jsonNumbersToFloat64(item)
+			changed = changed || c
+		}
+		return out, changed
+	}
+	return value, false
 }
 
 func (schema *Schema) visitNotOperation(settings *schemaValidationSettings, value any) (err error) {
